@@ -2111,7 +2111,7 @@ func (mgr *Manager) ListPcapProcessorWebhooks() []string {
 		if mgr.pcapProcessorWebhookUrls == nil {
 			c <- []string{}
 		} else {
-			c <- mgr.pcapProcessorWebhookUrls
+			c <- slices.Clone(mgr.pcapProcessorWebhookUrls)
 		}
 		close(c)
 	}
@@ -2129,9 +2129,10 @@ func (mgr *Manager) AddPcapProcessorWebhook(url string) error {
 			}
 		}
 		mgr.pcapProcessorWebhookUrls = append(mgr.pcapProcessorWebhookUrls, url)
+		webhooks := slices.Clone(mgr.pcapProcessorWebhookUrls)
 		mgr.event(Event{
 			Type:     "webhooksUpdated",
-			Webhooks: &mgr.pcapProcessorWebhookUrls,
+			Webhooks: &webhooks,
 		})
 		c <- mgr.saveState()
 		close(c)
@@ -2145,9 +2146,10 @@ func (mgr *Manager) DelPcapProcessorWebhook(url string) error {
 		for i, u := range mgr.pcapProcessorWebhookUrls {
 			if u == url {
 				mgr.pcapProcessorWebhookUrls = append(mgr.pcapProcessorWebhookUrls[:i], mgr.pcapProcessorWebhookUrls[i+1:]...)
+				webhooks := slices.Clone(mgr.pcapProcessorWebhookUrls)
 				mgr.event(Event{
 					Type:     "webhooksUpdated",
-					Webhooks: &mgr.pcapProcessorWebhookUrls,
+					Webhooks: &webhooks,
 				})
 				c <- mgr.saveState()
 				close(c)
